@@ -269,8 +269,8 @@ theorem holding_new : holding ({} : Writer) = false := rfl
 theorem done_false {w : Writer} (h : w.pc = .done) : live w = false ∧ atRecv w = false ∧ holding w = false := by
   simp [live, atRecv, holding, h]
 
-theorem Str_init (conc : Bool) (c : Nat) (ac acl : Bool) (prog : List Op) (flt : Fault) :
-    Str (initState conc c ac acl prog flt) := by
+theorem Str_init (conc : Bool) (c : Nat) (ac acl : Bool) (prog : List Op) (flt : Fault) (reuse : Bool := false) :
+    Str (initState conc c ac acl prog flt reuse) := by
   refine ⟨rfl, rfl, ?_, fun h => by simp [initState] at h, rfl, fun h => by simp [initState] at h⟩
   cases conc <;> simp [initState, cnt, chunkTok, b2n]
 
@@ -535,9 +535,9 @@ theorem Str_step {s t : CState} {i : Nat} (hs : Str s) (h : step s i = some t) :
 
 /-- the structural invariant holds in every reachable state: every program, every schedule,
     with or without an injected fault, in both modes -/
-theorem reach_Str {conc : Bool} {c : Nat} {ac acl : Bool} {prog : List Op} {flt : Fault} {s : CState}
-    (h : Reach (sys conc c ac acl prog flt) s) : Str s :=
-  inv_of_reach _ Str (Str_init conc c ac acl prog flt) (fun _ _ _ hs hst => Str_step hs hst) s h
+theorem reach_Str {conc : Bool} {c : Nat} {ac acl : Bool} {prog : List Op} {flt : Fault} {reuse : Bool} {s : CState}
+    (h : Reach (sys conc c ac acl prog flt reuse) s) : Str s :=
+  inv_of_reach _ Str (Str_init conc c ac acl prog flt reuse) (fun _ _ _ hs hst => Str_step hs hst) s h
 
 /-! ### control invariant: what the caller is in the middle of -/
 
@@ -670,10 +670,10 @@ theorem Ctl_step {s t : CState} {i : Nat} (hs : Str s) (hc : Ctl s) (h : step s 
           have : s.pc = .pushSend ∨ s.pc = .pushRecv := by rw [← E.pc]; exact h'
           show ∃ e rest, s'.prog = Op.push e :: rest; rw [E.prog]; exact hc.pushProg this
 
-theorem reach_Ctl {conc : Bool} {c : Nat} {ac acl : Bool} {prog : List Op} {flt : Fault} {s : CState}
-    (h : Reach (sys conc c ac acl prog flt) s) : Ctl s := by
+theorem reach_Ctl {conc : Bool} {c : Nat} {ac acl : Bool} {prog : List Op} {flt : Fault} {reuse : Bool} {s : CState}
+    (h : Reach (sys conc c ac acl prog flt reuse) s) : Ctl s := by
   have : Str s ∧ Ctl s := by
-    refine inv_of_reach _ (fun s => Str s ∧ Ctl s) ⟨Str_init _ _ _ _ _ _, Ctl_trivial (Or.inl rfl)⟩ ?_ s h
+    refine inv_of_reach _ (fun s => Str s ∧ Ctl s) ⟨Str_init _ _ _ _ _ _ _, Ctl_trivial (Or.inl rfl)⟩ ?_ s h
     intro a i b hab hst
     exact ⟨Str_step hab.1 hst, Ctl_step hab.1 hab.2 hst⟩
   exact this.2
